@@ -358,6 +358,9 @@ def install(interp):
         return dict(*a, **k)
 
     def py_set(x=()):
+        h = getattr(type(x), "_pyvc_toset", None)
+        if h is not None:
+            return h(x, interp)
         return interp.make_set(interp.iterate(x))
 
     def py_reversed(x):
